@@ -102,7 +102,7 @@ def update_after_swap_task(ctx):
         if len(outs) != 1 or isinstance(outs[0][1], Panic):
             o = M.Obligation(f'{tag}:single_path_no_panic', [], FALSE, note=str(outs)[:200]); o.replay = None; obls.append(o); continue
         p = outs[0][0]
-        post = fr0.loc['_900']
+        post = e.last_ext[0]        # final value of the `&mut self` argument on this (single) path
         g = lambda st, f: st.get(f).t
         W = C(1 << 64)
         mine, other = ('a', 'b') if fee_in_a else ('b', 'a')
